@@ -10,4 +10,4 @@ package math
 // C09: every call of Module() builds its module from objects allocated in that call. NewBuiltinsModule writes a
 // back-reference to the module into each builtin it is given, so builtins shared between modules (seed C09d hoisted
 // the table into a package-level variable) are written by every evaluation that builds its globals.
-//@ pkgcallpre[C09.module.fresh] C09 NewBuiltinsModule: fresh(arg1) && forallA(k, string, haskey(arg1, k) ==> fresh(arg1[k]))
+//@ pkgcallpre[mod.fresh] C09,C11 NewBuiltinsModule: fresh(arg1) && forallA(k, string, haskey(arg1, k) ==> fresh(arg1[k]))
